@@ -24,7 +24,19 @@ func (c *Ctx) runLemmaHarnesses(names []string, solver string, agg *Agg) []lemma
 		rep := c.Eng.ExploreWith(func(ex *gosx.Exec) {
 			ex.InitPackage(c.Eng.Pkg)
 			fn := ex.Func(name)
-			_, pan := ex.Call(fn)
+			var pan *gosx.TargetPanic
+			if c.nonTerminationFails {
+				// harnesses whose subject is termination: running past the step / call-depth bound is a failed obligation
+				// (confirmed natively by the helper process dying of stack exhaustion or timing out)
+				var unwound string
+				_, pan, unwound = ex.CallBounded(fn)
+				if unwound != "" {
+					ex.Assert(ex.TT().Bool(false), name+"/host-panic-or-nontermination", "the harness does not finish: "+unwound, nil)
+					return
+				}
+			} else {
+				_, pan = ex.Call(fn)
+			}
 			if pan != nil {
 				// an escaping panic in a lemma harness is itself a failed obligation
 				ex.Assert(ex.TT().Bool(false), name+"/escaping-panic", ex.PanicText(pan), nil)
